@@ -73,7 +73,7 @@ CHECKS = {
         "design_ref": "DESIGN.md section 3 / C09",
         "note": NOTE_COMMON + "std VecDeque is replaced under cfg(kani) by a fixed-capacity ring model (capacity overflow is a reported failure); "
         "per-loop unwind bounds for the `for j in 0..buff.len()` loops are discovered from the goto binary, unwinding assertions stay on. "
-        "Bounds: (w,m) in {(1,1),(2,1),(2,2),(3,2),(3,3),(4,2),(5,3)}, L = 0..=w+3 (quick); + (4,1),(6,3),(6,5),(8,5),(31,31),(32,31) (thorough).",
+        "Bounds: (w,m) in {(1,1),(2,1),(2,2),(3,2),(3,3),(4,2),(5,3)}, every L = 0..=w+2 (w+3 for w <= 2) (quick); L <= w+3 and + (4,1),(6,3),(6,5),(8,5),(31,31),(32,31) (thorough).",
         "technique": TECH,
     },
     "C11": {
